@@ -214,6 +214,11 @@ const c18Rule = "exhaustive: every string over an 18-symbol character-class alph
 
 func TestC18(t *testing.T) {
 	rec := ev.New("C18", c18Rule)
+	defer func() {
+		if !rec.Flush() {
+			t.Fail()
+		}
+	}()
 	rec.Assume("whitespace = RE2's \\s class {space,\\t,\\n,\\f,\\r} (the rules' own class; \\v and NBSP are not whitespace for Go's regexp)",
 		"lengths are counted in Unicode code points (Go regexp semantics)",
 		"JS/Java rule strings are compared as source literals after unescaping; JS and Java are not executed")
@@ -341,9 +346,6 @@ func TestC18(t *testing.T) {
 				rt.Fatalf("%s", msg)
 			}
 		}))
-	}
-	if !rec.Flush() {
-		t.Fail()
 	}
 }
 
